@@ -166,3 +166,221 @@ def extract(ctx):
     g = X.GenFile(PID, ['cflib/crazyflie/mem/i2c_element.py'])
     extract_i2c(g)
     return {'C14.lean': g.render()}
+
+
+# ======================================================================================================
+# the real code behind a fake memory handler
+# ======================================================================================================
+def _quiet():
+    import logging
+    logging.disable(logging.CRITICAL)
+
+
+class FakeMemHandler:
+    """`mem_handler` of a memory element: a byte array; requests are queued and served after the caller returned
+    (as the real `Memory` does: replies arrive later, on another thread), one at a time, in order."""
+
+    def __init__(self, mem=b''):
+        self.mem = bytearray(mem)
+        self.q = []
+        self.writes = []
+        self.reads = []
+
+    def read(self, memory, addr, length):
+        self.q.append(('r', memory, addr, length))
+        self.reads.append((addr, length))
+        return True
+
+    def write(self, memory, addr, data, flush_queue=False, progress_cb=None):
+        data = bytes(bytearray(data))
+        self.q.append(('w', memory, addr, data))
+        self.writes.append((addr, data))
+        return True
+
+    def run(self, new_data='new_data', write_done='write_done', limit=10000):
+        n = 0
+        while self.q:
+            n += 1
+            if n > limit:
+                raise RuntimeError('fake memory handler: request limit exceeded')
+            op = self.q.pop(0)
+            if op[0] == 'r':
+                _, m, a, ln = op
+                getattr(m, new_data)(m, a, bytearray(self.mem[a:a + ln]))
+            else:
+                _, m, a, d = op
+                if len(self.mem) < a:
+                    self.mem += bytes(a - len(self.mem))
+                self.mem[a:a + len(d)] = d
+                getattr(m, write_done)(m, a)
+
+
+def qnan32(b):
+    """float32 bit pattern with signalling NaNs quieted (CPython's float<->double conversion does this)"""
+    if (b & 0x7F800000) == 0x7F800000 and (b & 0x007FFFFF):
+        return b | 0x00400000
+    return b
+
+
+# ---- EEPROM ---------------------------------------------------------------------------------------------
+def real_i2c_write(v, ch, sp, p, r, addr):
+    _quiet()
+    from cflib.crazyflie.mem.i2c_element import I2CElement
+    h = FakeMemHandler()
+    el = I2CElement(0, 0, 0x2000, h)
+    el.elements = {'version': v, 'radio_channel': ch, 'radio_speed': sp, 'pitch_trim': bits_f32(p), 'roll_trim': bits_f32(r)}
+    if addr is not None:
+        el.elements['radio_address'] = addr
+    try:
+        el.write_data(lambda *a: None)
+    except Exception as e:
+        return 'err ' + exc_enum(e)
+    if len(h.writes) != 1 or h.writes[0][0] != 0:
+        return 'other writes=%r' % (h.writes,)
+    return 'ok ' + hexs(h.writes[0][1])
+
+
+def real_i2c_parse(mem):
+    _quiet()
+    from cflib.crazyflie.mem.i2c_element import I2CElement
+    h = FakeMemHandler(mem)
+    el = I2CElement(0, 0, 0x2000, h)
+    called = []
+    try:
+        el.update(lambda m: called.append(m.valid))
+        h.run()
+    except Exception as e:
+        return 'err ' + exc_enum(e)
+    d = el.elements
+    if 'version' in d:
+        f = '%d,%d,%d,%d,%d' % (d['version'], d['radio_channel'], d['radio_speed'], f32bits(d['pitch_trim']), f32bits(d['roll_trim']))
+    else:
+        f = '-'
+    a = str(d['radio_address']) if 'radio_address' in d else '-'
+    return 'ok f=%s a=%s v=%d c=%d' % (f, a, 1 if el.valid else 0, len(called))
+
+
+F32_EDGE = [0, 0x80000000, 1, 0x007FFFFF, 0x00800000, 0x3F800000, 0xBF800000, 0x7F7FFFFF, 0xFF7FFFFF, 0x7F800000, 0xFF800000,
+            0x7FC00000, 0xFFC00001, 0x40490FDB, 0x3DCCCCCD]
+
+
+def rnd_f32(rng):
+    k = rng.random()
+    if k < 0.35:
+        return rng.choice(F32_EDGE)
+    b = rng.getrandbits(32)
+    return qnan32(b)
+
+
+def canon_i2c_parse(s):
+    """quiet NaNs in the model's trims (the real side went through a double)"""
+    if not s.startswith('ok f=') or s.startswith('ok f=-'):
+        return s
+    head, rest = s[5:].split(' ', 1)
+    v = head.split(',')
+    v[3] = str(qnan32(int(v[3])))
+    v[4] = str(qnan32(int(v[4])))
+    return 'ok f=' + ','.join(v) + ' ' + rest
+
+
+def gen_i2c(ctx, cases):
+    rng = ctx.rng
+    thorough = ctx.tier == 'thorough'
+    images = []
+    # write side: versions, boundary channels/speeds, addresses around every limit
+    chans = [0, 1, 80, 125, 255, 256, -1, 1000]
+    addrs = [0, 1, 0xE7E7E7E7E7, 0xFFFFFFFF, 0x100000000, 0xFFFFFFFFFF, 0x10000000000, -1, -(1 << 33), None]
+    for _ in range(1500 if thorough else 300):
+        v = rng.choice([0, 0, 1, 1, 1, 2, 3, -1, 255])
+        ch = rng.choice(chans) if rng.random() < 0.4 else rng.randrange(256)
+        sp = rng.choice([0, 1, 2, 3, 255, 256, -1]) if rng.random() < 0.5 else rng.randrange(256)
+        p, r = rnd_f32(rng), rnd_f32(rng)
+        a = rng.choice(addrs) if rng.random() < 0.5 else rng.getrandbits(40)
+        line = 'i2c_write %d %d %d %d %d %s' % (v, ch, sp, p, r, 'none' if a is None else a)
+        cases.append(('i2c_write', line, (lambda v=v, ch=ch, sp=sp, p=p, r=r, a=a: real_i2c_write(v, ch, sp, p, r, a)), None,
+                      {'op': 'i2c_write', 'version': v, 'channel': ch, 'speed': sp, 'pitch': p, 'roll': r, 'address': a},
+                      ('i2c_write', v, ch, sp, p, r, a)))
+        if v in (0, 1) and 0 <= ch < 256 and 0 <= sp < 256 and (v == 0 or (a is not None and 0 <= a < (1 << 40))):
+            tok = bytes([0x30, 0x78, 0x42, 0x43])
+            body = struct.pack('<BBBff', v, ch, sp, bits_f32(p), bits_f32(r))
+            if v == 1:
+                body += struct.pack('<BI', a >> 32, a & 0xFFFFFFFF)
+            im = tok + body
+            images.append(im + bytes([sum(im) % 256]))
+    # parse side: written images inside a larger EEPROM, every single-byte corruption of some, random memories
+    def add_parse(mem, why):
+        line = 'i2c_parse ' + hexs(mem)
+        cases.append(('i2c_parse', line, (lambda m=mem: real_i2c_parse(m)), canon_i2c_parse,
+                      {'op': 'i2c_parse', 'why': why, 'mem': bytes(mem).hex()}, ('i2c_parse', bytes(mem))))
+    for k, im in enumerate(images):
+        tail = bytes(rng.randrange(256) for _ in range(rng.choice([5, 6, 16, 40])))
+        mem = im + tail[:max(0, 21 - len(im))] + tail
+        add_parse(mem, 'written')
+        if k < (40 if thorough else 8):
+            for i in range(len(im)):
+                for nb in ({0, 1, 2, 0xFF, mem[i] ^ 1, mem[i] ^ 0x80, (mem[i] + 1) % 256} | ({rng.randrange(256)} if not thorough else set(range(256)))) - {mem[i]}:
+                    m2 = bytearray(mem)
+                    m2[i] = nb
+                    add_parse(bytes(m2), 'corrupt@%d' % i)
+    for _ in range(400 if thorough else 100):
+        n = rng.choice([0, 1, 3, 4, 5, 14, 15, 16, 17, 19, 20, 21, 22, 30])
+        mem = bytearray(rng.randrange(256) for _ in range(n))
+        if rng.random() < 0.8:
+            mem[0:4] = bytes([0x30, 0x78, 0x42, 0x43])[:max(0, min(4, n))]
+        if n > 4 and rng.random() < 0.8:
+            mem[4] = rng.choice([0, 1, 1, 2])
+        if n > 15 and rng.random() < 0.5:      # make the checksum right for the version it claims
+            if mem[4] == 0:
+                mem[15] = sum(mem[:15]) % 256
+            elif n > 20:
+                mem[20] = sum(mem[:20]) % 256
+        add_parse(bytes(mem), 'random')
+
+
+GENERATORS = [gen_i2c]
+
+
+def correspond(ctx):
+    cases = []
+    for g in GENERATORS:
+        g(ctx, cases)
+    replies = ctx.lean(DRIVER, [c[1] for c in cases])
+    for (kind, line, thunk, canon, desc, key), model in zip(cases, replies):
+        real = thunk()
+        if canon is not None:
+            model = canon(model)
+            real = canon(real)
+        ctx.count('op:' + kind)
+        w = real.split(' ')
+        ctx.count('result:' + kind + ':' + w[0] + (':' + w[1] if w[0] == 'err' and len(w) > 1 else ''))
+        if kind.endswith('_parse') and real.startswith('ok'):
+            ctx.count('parse:' + kind + ':' + ' '.join(x for x in w if x.startswith(('v=', 'c='))))
+        ctx.case(desc, key)
+        if real != model:
+            ctx.disagree(kind, line[:400], model[:400], real[:400])
+
+
+# ======================================================================================================
+# failing-input search: the property itself on the real code
+# ======================================================================================================
+def search(ctx):
+    rng = ctx.rng
+    n = 300 if ctx.tier == 'quick' else 3000
+    # EEPROM: round trip for every representable content, validity, single corrupted byte
+    for t in range(n):
+        v = rng.choice([0, 1])
+        ch, sp = rng.randrange(256), rng.randrange(256)
+        p, r = rnd_f32(rng), rnd_f32(rng)
+        a = rng.choice([0, 0xE7E7E7E7E7, (1 << 40) - 1, rng.getrandbits(40)])
+        w = real_i2c_write(v, ch, sp, p, r, a)
+        inp = {'version': v, 'channel': ch, 'speed': sp, 'pitch': p, 'roll': r, 'address': a}
+        if not w.startswith('ok '):
+            ctx.witness('i2c-write-rejected', 'representable EEPROM content cannot be written', inp, got=w)
+            continue
+        im = bytes.fromhex(w[3:])
+        old = bytes(rng.randrange(256) for _ in range(32))
+        mem = im + old[len(im):]
+        want = 'ok f=%d,%d,%d,%d,%d a=%s v=1 c=1' % (v, ch, sp, p, r, a if v == 1 else '-')
+        got = real_i2c_parse(mem)
+        if got != want:
+            ctx.witness('i2c-roundtrip', 'EEPROM image does not parse back to the written content', inp, got=got, want=want)
